@@ -258,6 +258,9 @@ func Build(config string) core.BuildFunc {
 			BackoffInit: sc.Backoff, BackoffMult: 2, CloseTimeout: 2 * time.Second, WriteTimeout: &wt, Linktest: sc.Linktest, LinkThreshold: 1,
 			QueueSize: sc.Queue, AsyncErrHandler: true, Suppress: &noSuppress})
 		r := h.r
+		// the application's async-send error callback may be slow: it runs on the library's sender
+		// goroutine and must hold up nobody else (no send waiting on a generation that has ended)
+		r.AsyncErrDelay = []time.Duration{0, 0, 300 * time.Millisecond, 2 * time.Second}[w.T.Choose("scn", 4)]
 		r.P.AutoSelectRsp = 0
 		r.P.AutoLinktest = true
 		r.P.OnOpen = func(c *refhsms.Conn) {
